@@ -320,6 +320,8 @@ class TaxBenefitSystem:
         param_dir = os.path.join(extension_directory, "parameters")
         if os.path.isdir(param_dir):
             extension_parameters = ParameterNode(directory_path=param_dir)
+            # Forget the memoised views first: a merge that stops half-way has already changed the tree.
+            TaxBenefitSystem.get_parameters_at_instant.cache_clear()
             self.parameters.merge(extension_parameters)
 
     def apply_reform(self, reform_path: str) -> TaxBenefitSystem:
@@ -435,6 +437,8 @@ class TaxBenefitSystem:
             parameters = self.preprocess_parameters(parameters)
 
         self.parameters = parameters
+        # Views memoised by `get_parameters_at_instant` describe the former tree.
+        TaxBenefitSystem.get_parameters_at_instant.cache_clear()
 
     def _get_baseline_parameters_at_instant(self, instant):
         baseline = self.baseline
